@@ -5,6 +5,8 @@ C (code -> spec): seeded random SESSIONS of public API calls on a shared pool of
    one), content digests of every pool object before and after, the result digest, the digest of numpy's global
    generator state and a call key.  TLC validates the recorded traces against Purity.tla (Frame, Memo,
    RngIsolation, Continuity) - the API table of documented in-place targets lives in the specification.
+   The same sessions are recorded a second time by a fresh process in reverse session order and both recordings are
+   validated as ONE trace: Memo then compares results across two histories of the library's module-level state.
 B (spec -> code): PlaneHist.tla, a model of one plane's state under OPD updates, ramps, tilt fits (in place / copy)
    and copies; TLC generates all short behaviours and random long ones; each is replayed on a real Pupil and every
    observation (propagated field) must be the one of the plane's EFFECTIVE state, whatever the history.
@@ -145,6 +147,10 @@ class Session:
         zmod = sys.modules['lentil.zernike']
         seed = rng.choice((0, 1, 2, 3))          # 0 is a legal seed like any other
         arr = rng.choice(('A1', 'A2', 'ACC'))
+        os_ = rng.choice((1, 2))
+        px = rng.choice((1.0, 2.0))
+        psx = rng.choice((0.01, 0.02))
+        nz = rng.choice((True, False))
         menu = [
             ('Plane', lambda: l.Plane(amplitude=p['A1'], mask=p['M1']), ['A1', 'M1'], ()),
             ('Pupil', lambda: l.Pupil(amplitude=p['A2'], opd=p['O1'].copy(), mask=p['Mi'], pixelscale=0.5, focal_length=4.0), ['A2', 'Mi'], ()),
@@ -174,9 +180,9 @@ class Session:
             ('collect_charge', lambda: d.collect_charge(p['C1'], [500, 600, 700], [0.5, 0.6, 0.7]), ['C1'], ()),
             ('collect_charge_spectrum', lambda: d.collect_charge(p['C1'], [402, 405, 409], p['S1']), ['C1', 'S1'], ()),
             ('collect_charge_bayer', lambda: d.collect_charge_bayer(p['C1'][:, :4, :4], [500, 600, 700], [.1, .2, .3], [.4, .5, .6], [.7, .8, .9],
-                                                                   'RGGB', oversample=2), ['C1'], ()),
-            ('pixel', lambda: d.pixel(p[arr], oversample=2), [arr], (2,)),
-            ('pixelate', lambda: d.pixelate(p['A1'][:4, :4], oversample=2), ['A1'], (2,)),
+                                                                   'RGGB', oversample=os_), ['C1'], (os_,)),
+            ('pixel', lambda: d.pixel(p[arr], oversample=os_), [arr], (os_,)),
+            ('pixelate', lambda: d.pixelate(p['A1'][:4, :4], oversample=os_), ['A1'], (os_,)),
             ('adc', lambda: d.adc(p['E1'], gain=0.5, saturation_capacity=300), ['E1'], (0.5, 300)),
             ('adc', lambda: d.adc(p['E2'], gain=[1e-4, 0.5], saturation_capacity=2000, warn_saturate=True, dtype=np.uint16), ['E2'], ('poly',)),
             ('adc', lambda: d.adc(p['E2'], gain=np.full(self.shape, 0.25)), ['E2'], ('px',)),
@@ -187,8 +193,8 @@ class Session:
             ('rule07_dark_current', lambda: d.rule07_dark_current(150, 5e-6, 18e-6, shape=self.shape, fpn_factor=0.05, seed=seed), [], (self.shape, seed)),
             ('charge_diffusion', lambda: d.charge_diffusion(p[arr], 0.7, oversample=1), [arr], (0.7,)),
             ('cosmic_rays', lambda: d.cosmic_rays((6, 6), (5e-6, 5e-6, 3e-6), 2000.0, rate=4e8), [], ()),
-            ('jitter', lambda: l.jitter(p[arr], 0.7, pixelscale=1, oversample=2), [arr], (0.7, 2)),
-            ('smear', lambda: l.smear(p[arr], 1.5, angle=30), [arr], (1.5, 30)),
+            ('jitter', lambda: l.jitter(p[arr], 0.7, pixelscale=px, oversample=os_), [arr], (0.7, px, os_)),
+            ('smear', lambda: l.smear(p[arr], 1.5, angle=30, pixelscale=px, oversample=os_), [arr], (1.5, 30, px, os_)),
             ('smear_random_angle', lambda: l.smear(p[arr], 1.5), [arr], (1.5,)),
             ('centroid', lambda: u.centroid(p['A1']), ['A1'], ()),
             ('pad', lambda: u.pad(p['A1'], (7, 8)), ['A1'], (7, 8)),
@@ -196,16 +202,16 @@ class Session:
             ('subarray', lambda: u.subarray(p['A1'], (2, 3), shift=(1, 0)), ['A1'], ()),
             ('window', lambda: u.window(p['A1'], shape=(2, 2)), ['A1'], ()),
             ('boundary', lambda: u.boundary(p['M1']), ['M1'], ()),
-            ('rebin', lambda: u.rebin(p['A1'][:4, :4], 2), ['A1'], (2,)),
+            ('rebin', lambda: u.rebin(p['A1'][:4, :4], 2 * os_), ['A1'], (2 * os_,)),
             ('util_rescale', lambda: u.rescale(p['A1'], 1.5), ['A1'], (1.5,)),
             ('normalize_power', lambda: u.normalize_power(p['A1'], 2.0), ['A1'], (2.0,)),
-            ('zernike', lambda: l.zernike(p['Mi'], 4), ['Mi'], (4,)),
+            ('zernike', lambda: l.zernike(p['Mi'], 4, normalize=nz), ['Mi'], (4, nz)),
             ('zernike_compose', lambda: l.zernike_compose(p['Mi'], [0, 1e-7, 2e-7, 0, 3e-8]), ['Mi'], ()),
-            ('zernike_fit', lambda: l.zernike_fit(p['O1'], p['Mi'], [1, 2, 3, 4]), ['O1', 'Mi'], ()),
+            ('zernike_fit', lambda: l.zernike_fit(p['O1'], p['Mi'], [1, 2, 3, 4], normalize=nz), ['O1', 'Mi'], (nz,)),
             ('zernike_remove', lambda: l.zernike_remove(p['O1'], p['Mi'], [1, 2, 3]), ['O1', 'Mi'], ()),
-            ('zernike_basis', lambda: l.zernike_basis(p['Mi'], [1, 3, 5]), ['Mi'], ()),
+            ('zernike_basis', lambda: l.zernike_basis(p['Mi'], [1, 3, 5], normalize=nz), ['Mi'], (nz,)),
             ('zernike_coordinates', lambda: l.zernike_coordinates(p['M1']), ['M1'], ()),
-            ('power_spectrum', lambda: l.power_spectrum(p['Mi'], 0.01, 5e-8, 8, 3, seed=seed), ['Mi'], (seed,)),
+            ('power_spectrum', lambda: l.power_spectrum(p['Mi'], psx, 5e-8, 8, 3, seed=seed), ['Mi'], (psx, seed)),
             ('translation_defocus', lambda: l.translation_defocus(p['Mi'], 10, 1e-4), ['Mi'], ()),
             ('circle', lambda: l.circle((8, 9), 3, shift=(1, 0)), [], ()),
             ('spectrum_add', lambda: p['S1'] + p['S2'], ['S1', 'S2'], ()),
@@ -231,15 +237,39 @@ class Session:
             self.caller('caller_update', ['P1'], lambda: setattr(p['P1'], 'opd', p['O1'] * f + 0.0))
 
 
-def run_sessions(ctx, lentil, nsess, ncalls):
-    rng = random.Random(1010 + ctx.seed)
+def run_sessions(seed, lentil, nsess, ncalls, reverse=False, tid0=0):
+    """every session draws from its own generator (a function of seed and session number), so the same sessions can be run
+    in another order by another process"""
     events = []
-    for tid in range(nsess):
-        s = Session(lentil, tid, rng)
+    for tid in (reversed(range(nsess)) if reverse else range(nsess)):
+        s = Session(lentil, tid0 + tid, random.Random((1010 + seed) * 100003 + tid))
         for _ in range(ncalls):
             s.step()
         events += s.events
     return events
+
+
+def run_sessions_fresh_process(ctx, nsess, ncalls, tid0):
+    """the same sessions, last one first, in a fresh interpreter: module-level state (caches) of lentil is warmed in the opposite
+    order.  Their events are validated together with the forward ones, so Memo compares results across the two histories."""
+    import subprocess
+    import sys
+    import tempfile
+    here = os.path.dirname(os.path.dirname(os.path.abspath(__file__)))
+    os.makedirs(WORK, exist_ok=True)
+    out = os.path.join(WORK, f'rev_c10_{uuid.uuid4().hex[:10]}.json')
+    code = ('import sys, json; sys.path.insert(0, %r); from harness.core import import_lentil; from drivers import c10; '
+            'json.dump(c10.run_sessions(%d, import_lentil(), %d, %d, reverse=True, tid0=%d), open(%r, "w"))'
+            % (here, ctx.seed, nsess, ncalls, tid0, out))
+    p = subprocess.run([sys.executable, '-c', code], capture_output=True, text=True, timeout=3600)
+    try:
+        if p.returncode != 0:
+            raise TLCError('reverse-order session recorder failed: ' + p.stderr[-2000:])
+        with open(out) as f:
+            return json.load(f)
+    finally:
+        if os.path.exists(out):
+            os.unlink(out)
 
 
 def validate(ctx, events, name='Trace_C10'):
@@ -315,7 +345,12 @@ def plane_histories(ctx, lentil):
 def run(ctx):
     lentil = import_lentil()
     q = ctx.tier == 'quick'
-    events = run_sessions(ctx, lentil, 120 if q else 1000, 30 if q else 40)
+    nsess, ncalls = (120 if q else 1000), (30 if q else 40)
+    events = run_sessions(ctx.seed, lentil, nsess, ncalls)
+    nfwd = len(events)
+    events += run_sessions_fresh_process(ctx, nsess, ncalls, tid0=nsess)
+    ctx.extra['events_forward'] = nfwd
+    ctx.extra['events_reverse_session_order_fresh_process'] = len(events) - nfwd
     verdict = validate(ctx, events)
     report_bad(ctx, events, verdict)
     selftest(ctx, events)
